@@ -42,7 +42,9 @@ RULE = ("cases = (matrix, direction, entry point) for every symmetric matrix ove
 ASSUMPTIONS = ["n >= 2 break candidates (with a single candidate the implementation returns [0, 0]; the statement's list "
                "'from the first to the last candidate' is degenerate there and the case is not generated)",
                "padding convention of the callers: candidates are 0..shape-2, the last row/column is zero",
-               "matrix values are dyadic, so every sum compared is exact",
+               "matrix values are dyadic (every sum compared is exact) except in the 'decimal' spaces {0.1, 0.2, 0.3} / {0, 0.1, 0.2, "
+               "0.3}, where the returned list must be optimal within 1e-9 relative (two lists whose sums differ by less count as "
+               "equally good)",
                "the MBR-based simplification modes 4-6 are not driven (their cost functions do not return on collinear fixes "
                "and are unrelated to the dynamic programme)",
                "delegation is observed by wrapping tracklib.algo.segmentation.optimalPartition inside the harness process",
@@ -79,6 +81,10 @@ def _values(variant, which):
         vals = [0.0, c(1)]
     elif which == "signed":     # costs and rewards mixed: a negative entry makes "prune when the left part is already
         vals = [c(-1), 0.0, c(1)]   # no better" shortcuts unsound
+    elif which == "decimal":    # not representable in binary: sums depend on the order of the additions by one ulp, so
+        vals = [0.1, 0.2, 0.3]      # "the first break of an optimal list" is not what the recursion necessarily records
+    elif which == "decimal0":
+        vals = [0.0, 0.1, 0.2, 0.3]
     elif which == "signed-wide":
         vals = [c(-3), c(-1), c(2)]
     else:                       # "wide"
@@ -89,9 +95,10 @@ def _values(variant, which):
 def _matrix_spaces(tier, variant):
     """[(n, value-set name)] completed by this tier for this variant."""
     sp = [(2, "three"), (3, "three"), (4, "three"), (5, "three"), (6, "two"),
-          (2, "signed"), (3, "signed"), (4, "signed"), (5, "signed")]
+          (2, "signed"), (3, "signed"), (4, "signed"), (5, "signed"),
+          (4, "decimal0"), (5, "decimal")]
     if tier == "thorough":
-        sp += [(5, "wide"), (7, "two"), (5, "signed-wide")]
+        sp += [(5, "wide"), (7, "two"), (5, "signed-wide"), (5, "decimal0"), (6, "decimal")]
     return sp
 
 
